@@ -66,6 +66,7 @@ FieldsOf(np) == LET ps == IF np = 1 THEN {"T"} ELSE Params
 CorePairs == {{"custom", "lifetime"}, {"custom", "lifetime2"}, {"skip", "custom"}, {"skip", "enum"}, {"skip", "where"}, {"skip", "inline"}, {"skip", "lifetime"}, {"splitattr", "enum"}, {"splitattr", "tuple"}, {"splitattr", "custom"},
               {"cratepath", "skip"}, {"cratepath", "custom"}, {"cratepath", "enum"}, {"cratepath", "tuple"}, {"cratepath", "lifetime"}, {"cratepath", "skip", "custom"},
               {"skipused", "enum"}, {"skipused", "tuple"}, {"skipused", "where"}, {"skipused", "inline"}, {"skipused", "lifetime"}, {"skipused", "custom"}, {"skipused", "revattr"},
+              {"const", "lifetime"}, {"const", "lifetime2"}, {"const", "skip"}, {"const", "enum"},
               {"revattr", "skip"}, {"revattr", "custom"}, {"revattr", "skip", "custom"}, {"revattr", "skip", "custom", "enum"}, {"revattr", "skip", "where"},
               {"where", "custom"}, {"inline", "custom"}, {"const", "custom"}, {"default", "custom"}, {"enum", "custom"}}      \* bounds(..) replaces the GENERATED bounds only
 ModSets == {M \in SUBSET Modifiers : (Cardinality(M) <= (IF Pairwise THEN 2 ELSE 1) \/ M \in CorePairs) /\ ~({"lifetime", "lifetime2"} \subseteq M) /\ ~({"enum", "tuple"} \subseteq M)
